@@ -1,4 +1,35 @@
 rc_target("c13_uri_parse", flavour="asan")
 rc_target("c13_uri_codec", flavour="asan")
-plan("C13", [T("c13_uri_parse", 10000, 150000), T("c13_uri_codec", 10000, 150000)], min_nt=1000,
-     rule="tbd", technique="tbd", level_text="tbd", assumptions=[])
+plan("C13", [T("c13_uri_parse", 50000, 500000), T("c13_uri_codec", 50000, 500000)], min_nt=30000,
+     rule="URI texts assembled from generated components and compared accessor by accessor; byte strings through both encoders, the decoder "
+          "and the query iterator against reference implementations written in the harness",
+     technique="property-based testing (rapidcheck), construction with remembered expectations: the harness assembles "
+               "[scheme://][user[:password]@]host[:port][/path][?query] from components drawn over their RFC 3986 alphabets and requires every "
+               "accessor (scheme, authority, userinfo, user, password, host_name, port, path, query_string, path_and_query) to return the "
+               "component it put in, as a view inside the object's own copy of the text (the caller's text is overwritten and freed before the "
+               "accessors are read); builder output is compared with the assembled text, with the options, and re-parsed; percent-coding is "
+               "compared with a reference encoder/decoder and an explicit output-alphabet scan; query iteration (uri form, plain form, both "
+               "list forms) with a reference split",
+     level_text="Generated search: ~400 000 cases per quick run. Parser/builder: scheme present (72 %) or absent, user-info absent / user / "
+                "user:password with empty parts, reg-name / IPv4 / bracketed literal (IPv6, zone id, IPvFuture) / empty host, port absent, empty, "
+                "0, 1..65535, up to 2^32-1, 2^32 and above, 20 digits on both sides of 2^64, leading zeros, non-numeric; path empty or '/'-rooted "
+                "segments with ':' and '@'; query absent, empty, or pairs with empty pairs, missing '=', repeated '&', '/' and '?'; 30 % of the "
+                "cases go through aws_uri_init_from_builder_options (query_string or query_params). Codec: byte strings over all 256 values "
+                "(0..1500 bytes) into buffers with 0..1000 bytes of prior content and 9 capacity classes around n and 3n, decoder texts with "
+                "upper/lower-case escapes and malformed '%' (also cut off at the very end), encode->decode round trips, query iteration over raw "
+                "strings. Heap guard bytes and ASan watch every buffer. Sampling, not proof: absence of a violation is not established.",
+     assumptions=["scheme-less inputs (host[:port]/path?query, /path?query) are an extension of this parser whose documented heuristic is "
+                  "\"the first ':' followed by '/' ends a scheme\": for them no \":/\" pair is generated in path or query and no empty port "
+                  "directly before a path (constructed; classes excl_schemeless_colon_slash, excl_schemeless_emptyport_path)",
+                  "a text with nothing after the optional \"scheme://\" (\"\" and \"s://\") is rejected by an explicit branch of the parser; an empty "
+                  "authority is generated only when a path or a query follows (class excl_nothing_after_scheme)",
+                  "scheme-carrying inputs always have the \"//\" authority form (the library's own test declares \"https:/host\" malformed); "
+                  "fragments ('#') are not among the listed components and are not generated",
+                  "builder inputs are pre-encoded, a path is empty or starts with '/', port 0 means no port, query_string and query_params are "
+                  "mutually exclusive, IPv6 literals are passed with their brackets and read back without; an empty non-NULL parameter list may "
+                  "or may not leave a bare '?' at the end of the text (both accepted, class builder_empty_list_qmark)",
+                  "port: absent/empty/0 -> 0; decimal up to 4294967295 accepted with leading zeros; anything else must fail with "
+                  "AWS_ERROR_MALFORMED_INPUT_STRING; after a failed parse nothing about the object is asserted",
+                  "the coders are given dynamic buffers only (they call aws_byte_buf_reserve_relative, which refuses a buffer without allocator); "
+                  "after a failed decode only the bytes that were in the buffer before the call are asserted",
+                  "out-of-memory is fatal by design and not generated; leaks are not part of this statement and not asserted"])
